@@ -30,6 +30,7 @@ def write_replay(prop, failure, unit_run, witness):
         'repo_function': failure.get('repo_fn'),
         'repo_file': failure.get('repo_file'),
         'unit': unit_run.name,
+        'proof_aids_without_a_place': [a for a in getattr(getattr(unit_run, 'unit', None), 'lost_aids', []) if a['fn'] == failure.get('fn')],
         'counterexample': witness if witness else None,
         'note': ('concrete failing input found by the witness search and replayed on the real code' if witness and witness.get('failed')
                  else 'Verus gives no counterexample; no-failing-input-found'),
@@ -206,6 +207,7 @@ def decide_and_report(prop, tier, seed, runs, undecided, known, index, wall, ext
             'known_finding_obligation_groups': [o['id'] for o in known_failed_obs],
             'bounded_parts': pinfo.get('bounded', []) + (kani.get('bounded', []) if kani else []),
             'undecided': undecided,
+            'proof_aids_without_a_place': [dict(a, unit=r.name) for r in runs for a in r.unit.lost_aids],
             'units': [r.name for r in runs],
             'explanation': pinfo.get('covers', ''),
         },
